@@ -264,10 +264,10 @@ CHECKS["C10"] = {
     "explanation": "The harnesses are printers: each builds the byte string of a command from an abstract command whose leaves are symbolic (tag bytes, letter case of every keyword character, each string argument in atom / quoted / literal encoding with symbolic payload bytes, digit strings, sequence sets, flag lists, fetch attributes with sections and partials, search-key trees, dates and date-times, optional short reads), feeds it through command.Parser.Parse (real go/ssa of imap/command and rfcparser) and compares the parsed command with the abstract one, field by field.  Families: string/mailbox commands (LOGIN, SELECT, EXAMINE, CREATE, DELETE, SUBSCRIBE, UNSUBSCRIBE, RENAME, COPY, MOVE, STATUS), FETCH, STORE, SEARCH, APPEND, LIST/LSUB/ID/UID EXPUNGE and the commands without arguments; UID prefixes.  The dimensions (letter case, tag, encodings, set numbers, chunking) are made symbolic one family at a time, not as one product.",
     "harnesses": [
         {"name": "strings", "pkg": "imap/command", "pkgname": "command", "entry": "VerifC10Strings", "files": C10_FILES,
-         "params": {"quick": grid(cmd=[1], symcase=[1], symtag=[0], len=[1], chunked=[0]) + grid(cmd=[1], symcase=[0], symtag=[1], len=[1], chunked=[0]) + grid(cmd=[1], symcase=[0], symtag=[0], len=[1, 2, 3], chunked=[0]) + grid(cmd=[0, 8], symcase=[0], symtag=[0], len=[1], chunked=[0], bigset=[1]) + grid(cmd=[1], symcase=[0], symtag=[0], len=[2], chunked=[1]), "thorough": grid(cmd=[-1], symcase=[0,1], symtag=[0], len=[1, 2, 3, 5], chunked=[0, 1])},
+         "params": {"quick": grid(cmd=[1], symcase=[1], symtag=[0], len=[1], chunked=[0]) + grid(cmd=[1], symcase=[0], symtag=[1], len=[1], chunked=[0]) + grid(cmd=[1], symcase=[0], symtag=[0], len=[1, 2, 3], chunked=[0]) + grid(cmd=[0], symcase=[0], symtag=[0], len=[1], chunked=[0]) + grid(cmd=[8], symcase=[0], symtag=[0], len=[1], chunked=[0], bigset=[0, 1]) + grid(cmd=[1], symcase=[0], symtag=[0], len=[2], chunked=[1]), "thorough": grid(cmd=[-1], symcase=[0,1], symtag=[0], len=[1, 2, 3, 5], chunked=[0, 1])},
          "summarise": SCAN_SUMMARISE, "cover": []},
         {"name": "fetch", "pkg": "imap/command", "pkgname": "command", "entry": "VerifC10Fetch", "files": C10_FILES,
-         "params": {"quick": grid(natt=[0, 1], fam=[0], symcase=[1]) + grid(natt=[1], fam=[1], flen=[0], symcase=[0]), "thorough": grid(natt=[0, 1, 2], fam=[0], symcase=[1], symset=[0, 1]) + grid(natt=[1], fam=[1], flen=[0, 1, 2], symcase=[0, 1]) + grid(natt=[2], fam=[1], flen=[0], symcase=[0])},
+         "params": {"quick": grid(natt=[0, 1], fam=[0], symcase=[1]) + grid(natt=[1], fam=[1], flen=[0], symcase=[1]), "thorough": grid(natt=[0, 1, 2], fam=[0], symcase=[1], symset=[0, 1]) + grid(natt=[1], fam=[1], flen=[0, 1, 2], symcase=[0, 1]) + grid(natt=[2], fam=[1], flen=[0], symcase=[0])},
          "summarise": SCAN_SUMMARISE, "cover": []},
         {"name": "store", "pkg": "imap/command", "pkgname": "command", "entry": "VerifC10Store", "files": C10_FILES,
          "params": {"quick": grid(nflags=[0, 1], symcase=[1]) + grid(nflags=[2], symcase=[0]), "thorough": grid(nflags=[0, 1, 2], symcase=[1], symset=[0, 1]) + grid(nflags=[3], symcase=[0])},
@@ -293,8 +293,13 @@ CHECKS["C04"] = {
     "harnesses": [
         {"name": "generator", "pkg": "imap", "pkgname": "imap", "entry": "VerifC04Generator", "files": ["zz_verif_c04.go"],
          "params": {"quick": grid(gap=[3]), "thorough": grid(gap=[8])}, "cover": ["generator-ok", "generator-error"], "max_sym_loop": 32},
+        {"name": "generator-anygap", "pkg": "imap", "pkgname": "imap", "entry": "VerifC04Generator", "files": ["zz_verif_c04.go"],
+         "params": {"quick": grid(gap=[-1]), "thorough": grid(gap=[-1])}, "cover": ["generator-ok", "generator-error"], "max_sym_loop": 6, "sym_loop_cut": True},
         {"name": "incremental", "pkg": "imap", "pkgname": "imap", "entry": "VerifC04Incremental", "files": ["zz_verif_c04.go"],
          "params": {"quick": [{}], "thorough": [{}]}, "cover": []},
+        {"name": "recreate", "pkg": "internal/state", "pkgname": "state", "entry": "VerifC04Recreate",
+         "files": ["zz_verif_c04.go", "zz_verif_c17.go", "zz_verif_fixture.go", "zz_verif_world.go"], "with": ["verifdb"], "gen_stubs": [TX_STUB],
+         "params": {"quick": grid(k=[3, 4]), "thorough": grid(k=[5, 6])}, "cover": ["name-recreated"]},
     ],
     "stubs": ["time.Now -> symbolic instant 1970..2255, monotone", "sync/atomic -> plain accesses (single goroutine)", "Time.Sub / Duration.Seconds -> whole seconds, no overflow within the clock bounds"],
     "outside": ["UID allocation itself (SQLite AUTOINCREMENT; the relational stub models it, the engine cannot encode SQLite)", "restarts", "the CAS loop under real concurrency", "catch-up gaps larger than the bound"],
@@ -328,6 +333,13 @@ CHECKS["C07"] = {
          "gen_stubs": [{"pkgpath": "github.com/ProtonMail/gluon/connector", "iface": "Connector", "type": "verifConnBase"}],
          "params": {"quick": grid(faults=[0, 1]), "thorough": grid(faults=[0, 1, 2])},
          "cover": ["op-ok", "crash-point"]},
+        {"name": "getliteral", "pkg": "internal/state", "pkgname": "state", "entry": "VerifC07GetLiteral",
+         "files": ["zz_verif_c20.go", "zz_verif_c17.go"] + STATE_FILES, "with": ["verifdb"], "gen_stubs": [TX_STUB],
+         "params": {"quick": [{}], "thorough": [{}]}, "cover": ["literal-served", "literal-failed"]},
+        {"name": "commands", "pkg": "internal/state", "pkgname": "state", "entry": "VerifC20Cycle",
+         "files": ["zz_verif_c20.go", "zz_verif_c17.go"] + STATE_FILES, "with": ["verifdb"], "gen_stubs": [TX_STUB],
+         "params": {"quick": grid(k=[2, 3], faults=[2]), "thorough": grid(k=[4], faults=[2, 3])},
+         "cover": ["cycle-append-refused", "cycle-moved-out"]},
     ],
     "stubs": ["internal/verifdb: Write is atomic and durable at commit, rolled back on error (contract of sqlite3 wrapTx - SQLite itself is outside)", "store.Store stub: each Set/Delete is atomic and durable in order"],
     "outside": ["durability itself (SQLite WAL, fsync, the file system)", "process kill inside a store write (torn file: C09)", "mailbox create/delete/rename and client commands (APPEND ordering is decided under C20's harness obligations 'stored bytes present when OK')"],
